@@ -345,8 +345,8 @@ def run(ctx):
     bpool = tircheck.Pool(ctx)
     bmeta = []
     for i in range(900 if thorough else 220):
-        stmts, val = block_program(rng, fixed=i)
-        bpool.add([(("binding_block", stmts), "const-block")])
+        stmts, val = block_program(rng, fixed=i, dyn=(i % 3 == 2))
+        bpool.add([(("binding_block", stmts), "const-block" + ("-with-run-time-reads" if i % 3 == 2 else ""))])
         bmeta.append(val)
     bpool.run()
     static = 0
@@ -360,6 +360,10 @@ def run(ctx):
         if ev is None:
             continue                      # not evaluated statically (or rejected): always safe for C03
         static += 1
+        if want is DYN:
+            ctx.violation("the block %s is evaluated statically to %r although the value it returns is computed from a property read at run time" % (bpool.sources[i], ev),
+                          {"case": bpool.sources[i], "impl_output": ev, "oracle_output": "not a constant", "theorem_or_correspondence": "S: statement-level reference evaluator (taint)"})
+            continue
         if ev == "emptylist":
             got = []
         elif "int" in ev:
@@ -442,7 +446,10 @@ def oracle_cast_chain(atom, chain):
     return v
 
 
-def block_program(rng, fixed=None):
+DYN = object()
+
+
+def block_program(rng, fixed=None, dyn=False):
     """a block over constants with let/const of int / string / string-list type, reassignments, element writes, nested blocks and a return;
     returns (statements, value) where value is what the block denotes (Python reference evaluation) or UNDEF (out-of-range element write)"""
     if fixed is not None and fixed < len(FIXED_BLOCKS):
@@ -467,7 +474,14 @@ def block_program(rng, fixed=None):
         if names and rng.random() < 0.5:
             n = rng.choice(names)
             v = lookup(n)[1]
-            return ("ident", n), (list(v) if kind == "list" else v)
+            return ("ident", n), (list(v) if (kind == "list" and v is not DYN) else v)
+        if dyn and rng.random() < 0.15:
+            # a value read from an object at run time: whatever it flows into is no constant (DYN), however constant the variable was before
+            e = {"int": ("member", ("ident", "a"), "i"), "str": ("member", ("ident", "a"), "s"), "list": ("member", ("ident", "a"), "names")}[kind]
+            if kind != "list" and names and rng.random() < 0.6:
+                n = rng.choice(names)
+                e = ("binary", "+", ("ident", n), e)
+            return e, DYN
         if kind == "int":
             v = rng.choice([0, 1, 2, 7, 100, 2 ** 31])
             return ("int", v), v
@@ -501,9 +515,13 @@ def block_program(rng, fixed=None):
             elif c < 0.85 and visible("list", let=True):
                 n_ = rng.choice(visible("list", let=True))
                 ent = lookup(n_)
-                i = rng.choice([0, 0, 1, 2, len(ent[1]) - 1])
+                i = rng.choice([0, 0, 1, 2, (len(ent[1]) - 1) if ent[1] is not DYN else 0])
                 e, v = expr("str")
-                if 0 <= i < len(ent[1]):
+                if ent[1] is DYN:
+                    pass
+                elif v is DYN:
+                    ent[1] = DYN
+                elif 0 <= i < len(ent[1]):
                     ent[1] = ent[1][:i] + [v] + ent[1][i + 1:]
                 else:
                     undefined[0] = True
@@ -518,7 +536,7 @@ def block_program(rng, fixed=None):
     body = stmts(0, rng.randrange(2, 7))
     names = visible()
     if not names:
-        return block_program(rng)
+        return block_program(rng, dyn=dyn)
     n_ = rng.choice(names)
     val = lookup(n_)[1]
     body.append(("return", ("ident", n_)))
